@@ -154,6 +154,11 @@ fn fault_strategy() -> impl Strategy<Value = Fault> {
             .prop_filter("kind must mismatch", |(d, p)| !((*d == "(1)" && *p == PullAs::To(Target::Expr)) || (*d == "#11a" && *p == PullAs::To(Target::Arb))))
             .prop_map(|(d, pull)| Fault::Typed { datum: d.to_string(), pull, execution: false }),
         (prop_oneof![Just("\"s\""), Just("1"), Just("(1)")], prop_oneof![Just(PullAs::Enum), Just(PullAs::To(Target::Chr))]).prop_map(|(d, pull)| Fault::Typed { datum: d.to_string(), pull, execution: false }),
+        // an element of a kind that a Boolean / AUTO / unit quantity / numeric_value never accepts: a data-type fault
+        (prop_oneof![Just("\"ON\""), Just("'1'"), Just("(1)"), Just("#12ON"), Just("#H1"), Just("1 S"), Just("#210ONCEONCEON")], prop_oneof![Just(PullAs::Auto), Just(PullAs::To(Target::Bool)), Just(PullAs::DataBool)])
+            .prop_map(|(d, pull)| Fault::Typed { datum: d.to_string(), pull, execution: false }),
+        (prop_oneof![Just("\"1 V\""), Just("'V'"), Just("(1)"), Just("#111")], prop_oneof![Just(PullAs::Volt), Just(PullAs::Seconds), Just(PullAs::NumericF32), Just(PullAs::NumericU8), Just(PullAs::AmplitudeVolt), Just(PullAs::DbPower)])
+            .prop_map(|(d, pull)| Fault::Typed { datum: d.to_string(), pull, execution: false }),
         // value faults: execution error
         (prop_oneof![Just("1e30".to_string()), Just("-1e30".to_string()), Just("2147483648".to_string()), Just("-2147483649".to_string()), Just("#HFFFFFFFFF".to_string()), (2147483648i64..1i64 << 40).prop_map(|v| v.to_string())], prop_oneof![Just(PullAs::DataI32), Just(PullAs::To(Target::Int(IntTy::I32)))])
             .prop_map(|(datum, pull)| Fault::Typed { datum, pull, execution: true }),
